@@ -1,6 +1,287 @@
-//! C09: implementation-side case runners (see props/c09.py). Stub until the property is built.
+//! C09 (and the shared terminal runner used by C01): feed a character stream to one of the ten text-mode
+//! emulations attached to a terminal buffer and observe geometry after every character.
+//!
+//! kinds
+//!   term   <emu> <music> <w> <h> <hex>     per character: cls cx cy bw bh lw lh tw th nlines mt mb ml mr flags ntabs rowsum tabsum
+//!                                          then, once: -7 nlines len_0 .. len_{n-1} -8 ntabs tab_0 ..
+//!   c09inv <emu> <music> <w> <h> <hex>     the invariant of C09 checked after EVERY character (oracle, no model involved)
+//!                                          -> n_fed viol_index(-1 none) viol_kind cx cy first tw th bw bh lw lh nlines resized_at(-1)
+//!   c09exh <emu> <music> <w> <h> <depth> <setup-hex> <first-token-index|-1> <tok,tok,...>
+//!                                          all sequences of <depth> tokens (first one fixed when index >= 0), each after the
+//!                                          setup bytes; -> n_seq n_viol then per violation (max 40): depth indices.. char_idx kind cx cy first tok_pos
+use crate::util::unhex;
 use crate::Obs;
+use icy_engine::{ansi, ascii, atascii, avatar, ctrla, mode7, pcboard, petscii, renegade, viewdata};
+use icy_engine::{Buffer, BufferParser, CallbackAction, Caret, TextPane};
 
-pub fn run(_kind: &str, _args: &[&str]) -> Option<Obs> {
-    None
+pub fn make_parser(emu: usize, music: usize) -> Box<dyn BufferParser> {
+    match emu {
+        0 => {
+            let mut p = ansi::Parser::default();
+            p.ansi_music = match music & 3 {
+                1 => ansi::MusicOption::Conflicting,
+                2 => ansi::MusicOption::Banana,
+                3 => ansi::MusicOption::Both,
+                _ => ansi::MusicOption::Off,
+            };
+            p.bs_is_ctrl_char = music & 4 != 0;
+            Box::new(p)
+        }
+        1 => Box::<avatar::Parser>::default(),
+        2 => Box::<pcboard::Parser>::default(),
+        3 => Box::<ctrla::Parser>::default(),
+        4 => Box::<renegade::Parser>::default(),
+        5 => Box::<ascii::Parser>::default(),
+        6 => Box::<petscii::Parser>::default(),
+        7 => Box::<atascii::Parser>::default(),
+        8 => Box::<viewdata::Parser>::default(),
+        _ => Box::<mode7::Parser>::default(),
+    }
+}
+
+pub struct Term {
+    pub buf: Buffer,
+    pub caret: Caret,
+    pub parser: Box<dyn BufferParser>,
+    pub emu: usize,
+    pub w: i32,
+    pub h: i32,
+}
+
+impl Term {
+    pub fn new(emu: usize, music: usize, w: i32, h: i32) -> Self {
+        let mut buf = Buffer::new((w, h));
+        buf.is_terminal_buffer = true;
+        Term { buf, caret: Caret::default(), parser: make_parser(emu, music), emu, w, h }
+    }
+
+    /// 0 = Ok(action), 1 = Err, 3 = Ok(ResizeTerminal)
+    pub fn feed(&mut self, b: u8) -> i64 {
+        match self.parser.print_char(&mut self.buf, 0, &mut self.caret, b as char) {
+            Ok(CallbackAction::ResizeTerminal(_, _)) => 3,
+            Ok(_) => 0,
+            Err(_) => 1,
+        }
+    }
+
+    pub fn first(&self) -> i32 {
+        self.buf.get_first_visible_line()
+    }
+
+    /// 0 = holds; 1 = column outside 0..width; 2 = row outside the visible rows; 3 = fixed grid changed size
+    pub fn c09_violation(&self) -> i64 {
+        let p = self.caret.get_position();
+        let tw = self.buf.terminal_state.get_width();
+        let th = self.buf.terminal_state.get_height();
+        let first = self.first();
+        if self.emu >= 8 {
+            let l = &self.buf.layers[0];
+            if self.buf.get_width() != self.w
+                || self.buf.get_height() != self.h
+                || tw != self.w
+                || th != self.h
+                || l.get_width() != self.w
+                || l.get_height() != self.h
+                || l.lines.len() as i32 > self.h
+                || first != 0
+            {
+                return 3;
+            }
+        }
+        if p.x < 0 || p.x >= tw {
+            return 1;
+        }
+        if p.y < first || p.y >= first + th {
+            return 2;
+        }
+        0
+    }
+
+    pub fn obs(&self, cls: i64, out: &mut Vec<i64>) {
+        let p = self.caret.get_position();
+        let b = &self.buf;
+        let l = &b.layers[0];
+        let ts = &b.terminal_state;
+        let (mt, mb) = ts.get_margins_top_bottom().unwrap_or((-9, -9));
+        let (ml, mr) = ts.get_margins_left_right().unwrap_or((-9, -9));
+        let mut flags = 0i64;
+        if ts.origin_mode == icy_engine::OriginMode::WithinMargins {
+            flags |= 1;
+        }
+        if ts.auto_wrap_mode == icy_engine::AutoWrapMode::AutoWrap {
+            flags |= 2;
+        }
+        if self.caret.insert_mode {
+            flags |= 4;
+        }
+        if ts.dec_margin_mode_left_right {
+            flags |= 8;
+        }
+        let mut rowsum = 0i64;
+        for (i, ln) in l.lines.iter().enumerate() {
+            rowsum = (rowsum + (i as i64 + 1) * (ln.chars.len() as i64 + 1)) % 1_000_003;
+        }
+        let mut tabsum = 0i64;
+        for (i, t) in ts.get_tabs().iter().enumerate() {
+            tabsum = (tabsum + (i as i64 + 1) * (*t as i64 + 7)) % 1_000_003;
+        }
+        out.extend_from_slice(&[
+            cls,
+            p.x as i64,
+            p.y as i64,
+            b.get_width() as i64,
+            b.get_height() as i64,
+            l.get_width() as i64,
+            l.get_height() as i64,
+            ts.get_width() as i64,
+            ts.get_height() as i64,
+            l.lines.len() as i64,
+            mt as i64,
+            mb as i64,
+            ml as i64,
+            mr as i64,
+            flags,
+            ts.tab_count() as i64,
+            rowsum,
+            tabsum,
+        ]);
+    }
+}
+
+fn parse_head(args: &[&str]) -> (usize, usize, i32, i32) {
+    (args[0].parse().unwrap(), args[1].parse().unwrap(), args[2].parse().unwrap(), args[3].parse().unwrap())
+}
+
+fn term(args: &[&str]) -> Obs {
+    let (emu, music, w, h) = parse_head(args);
+    let bytes = unhex(args[4]);
+    let mut t = Term::new(emu, music, w, h);
+    let mut out = Vec::with_capacity(bytes.len() * 18 + 64);
+    for b in bytes {
+        let cls = t.feed(b);
+        t.obs(if cls == 3 { 0 } else { cls }, &mut out);
+    }
+    let l = &t.buf.layers[0];
+    out.push(-7);
+    out.push(l.lines.len() as i64);
+    for ln in &l.lines {
+        out.push(ln.chars.len() as i64);
+    }
+    out.push(-8);
+    out.push(t.buf.terminal_state.tab_count() as i64);
+    for x in t.buf.terminal_state.get_tabs() {
+        out.push(*x as i64);
+    }
+    Ok(out)
+}
+
+fn c09inv(args: &[&str]) -> Obs {
+    let (emu, music, w, h) = parse_head(args);
+    let bytes = unhex(args[4]);
+    let mut t = Term::new(emu, music, w, h);
+    let mut viol_idx = -1i64;
+    let mut viol = 0i64;
+    let mut snap = vec![0i64; 10];
+    let mut resized = -1i64;
+    let mut fed = 0i64;
+    for (i, b) in bytes.iter().enumerate() {
+        let cls = t.feed(*b);
+        fed += 1;
+        if cls == 3 {
+            resized = i as i64;
+            break; // the property excludes streams that request a text-area resize
+        }
+        let v = t.c09_violation();
+        if v != 0 && viol_idx < 0 {
+            viol_idx = i as i64;
+            viol = v;
+            let p = t.caret.get_position();
+            snap = vec![
+                p.x as i64,
+                p.y as i64,
+                t.first() as i64,
+                t.buf.terminal_state.get_width() as i64,
+                t.buf.terminal_state.get_height() as i64,
+                t.buf.get_width() as i64,
+                t.buf.get_height() as i64,
+                t.buf.layers[0].get_width() as i64,
+                t.buf.layers[0].get_height() as i64,
+                t.buf.layers[0].lines.len() as i64,
+            ];
+        }
+    }
+    let mut out = vec![fed, viol_idx, viol];
+    out.extend(snap);
+    out.push(resized);
+    Ok(out)
+}
+
+fn c09exh(args: &[&str]) -> Obs {
+    let (emu, music, w, h) = parse_head(args);
+    let depth: usize = args[4].parse().unwrap();
+    let setup = unhex(args[5]);
+    let first_tok: i64 = args[6].parse().unwrap();
+    let toks: Vec<Vec<u8>> = args[7].split(',').map(unhex).collect();
+    let n = toks.len();
+    let mut idx = vec![0usize; depth];
+    if first_tok >= 0 {
+        idx[0] = first_tok as usize;
+    }
+    let mut nseq = 0i64;
+    let mut nviol = 0i64;
+    let mut out: Vec<i64> = Vec::new();
+    'outer: loop {
+        let mut t = Term::new(emu, music, w, h);
+        for b in &setup {
+            t.feed(*b);
+        }
+        nseq += 1;
+        let mut ci = 0i64;
+        'seq: for d in 0..depth {
+            for b in &toks[idx[d]] {
+                let cls = t.feed(*b);
+                if cls == 3 {
+                    break 'seq;
+                }
+                let v = t.c09_violation();
+                if v != 0 {
+                    nviol += 1;
+                    if out.len() < 40 * (depth + 6) {
+                        out.extend(idx.iter().map(|x| *x as i64));
+                        let p = t.caret.get_position();
+                        // char index, kind, caret, first visible line, index (in the sequence) of the token that broke it
+                        out.extend_from_slice(&[ci, v, p.x as i64, p.y as i64, t.first() as i64, d as i64]);
+                    }
+                    break 'seq;
+                }
+                ci += 1;
+            }
+        }
+        // next index vector
+        let lo = if first_tok >= 0 { 1 } else { 0 };
+        let mut k = depth;
+        loop {
+            if k == lo {
+                break 'outer;
+            }
+            k -= 1;
+            idx[k] += 1;
+            if idx[k] < n {
+                break;
+            }
+            idx[k] = 0;
+        }
+    }
+    let mut res = vec![nseq, nviol];
+    res.extend(out);
+    Ok(res)
+}
+
+pub fn run(kind: &str, args: &[&str]) -> Option<Obs> {
+    match kind {
+        "term" => Some(term(args)),
+        "c09inv" => Some(c09inv(args)),
+        "c09exh" => Some(c09exh(args)),
+        _ => None,
+    }
 }
